@@ -94,4 +94,43 @@ theorem shiftLin_moment (k : ℤ) (f : K) (x : ℤ → K) (hx : (support x).Fini
     simpa [sub_add_eq_sub_sub] using this
   rw [u1, u2, key k, k2]; ring
 
+/-! ### algebra of the order-1 shift: translation, continuity in δ, linearity, composition, exactness on ramps -/
+
+/-- a whole-pixel request (`f = 0`) is a pure translation: no interpolation, every value kept -/
+theorem shiftLin_zero_frac (k : ℤ) (x : ℤ → K) (i : ℤ) : shiftLin k 0 x i = x (i - k) := by
+  simp [shiftLin]
+
+/-- no shift requested → the data are returned unchanged -/
+theorem shiftLin_zero (x : ℤ → K) : shiftLin 0 0 x = x := by
+  funext i; simp [shiftLin]
+
+/-- `f = 1` is the next whole pixel: the interpolation is continuous across integer shifts -/
+theorem shiftLin_one_frac (k : ℤ) (x : ℤ → K) : shiftLin k 1 x = shiftLin (k + 1) 0 x := by
+  funext i; simp [shiftLin, sub_add_eq_sub_sub]
+
+/-- the shift is **linear** in the data -/
+theorem shiftLin_linear (k : ℤ) (f a b : K) (x y : ℤ → K) (i : ℤ) :
+    shiftLin k f (fun j => a * x j + b * y j) i = a * shiftLin k f x i + b * shiftLin k f y i := by
+  simp only [shiftLin]; ring
+
+/-- whole-pixel shifts compose additively with any sub-pixel shift, in either order -/
+theorem shiftLin_comp_int (k k' : ℤ) (f : K) (x : ℤ → K) :
+    shiftLin k 0 (shiftLin k' f x) = shiftLin (k + k') f x ∧
+    shiftLin k' f (shiftLin k 0 x) = shiftLin (k + k') f x := by
+  constructor <;> funext i <;> simp only [shiftLin] <;>
+    (have e1 : i - k - k' = i - (k + k') := by ring
+     have e2 : i - k' - k = i - (k + k') := by ring
+     have e3 : i - k' - 1 - k = i - (k + k') - 1 := by ring
+     simp [e1, e2, e3])
+
+/-- a constant image stays the same constant (partition of unity of the two weights) -/
+theorem shiftLin_const (k : ℤ) (f c : K) (i : ℤ) : shiftLin k f (fun _ => c) i = c := by
+  simp only [shiftLin]; ring
+
+/-- a linear ramp is moved exactly: linear interpolation is exact on degree-1 data, so the
+    centre of a linear feature lands exactly where requested -/
+theorem shiftLin_ramp (k : ℤ) (f a b : K) (i : ℤ) :
+    shiftLin k f (fun j : ℤ => a * (j : K) + b) i = a * ((i : K) - ((k : K) + f)) + b := by
+  simp only [shiftLin]; push_cast; ring
+
 end PyAbel.C12
